@@ -345,7 +345,14 @@ pub fn midi_case(data: &[u8]) -> midi::MidiCase {
             20 => Chan { kind: 6, own: true, other: 0, d1: r.u8() % 128, d2: r.u8() % 128, rs: r.bool() },
             21 | 22 => Chan { kind: r.u8() % 7, own: false, other: r.u8() % 15, d1: r.u8() % 128, d2: r.u8() % 128, rs: r.bool() },
             23 => Chan { kind: [2u8, 4, 5][(r.u8() % 3) as usize], own: true, other: 0, d1: r.u8() % 128, d2: r.u8() % 128, rs: r.bool() },
-            24 => RealTime(r.u8() % 8),
+            24 => {
+                if r.bool() {
+                    RealTime(r.u8() % 8)
+                } else {
+                    let own = r.bool();
+                    ChanRt { kind: if own { r.u8() % 2 } else { r.u8() % 7 }, own, other: r.u8() % 15, d1: note(&mut r), d2: r.u8() % 128, rt: r.u8(), at: 1 + r.u8() % 3 }
+                }
+            }
             25 => SetPriority([midi::Prio::Last, midi::Prio::High, midi::Prio::Low][(r.u8() % 3) as usize]),
             26 => SetRetrigger(r.bool()),
             27 | 28 => PollRising,
